@@ -15,6 +15,9 @@ func (r RegisteredDelivery) ReadByte() (c byte, err error) {
 	c |= r.SMEOriginatedAcknowledgment & 0b11 << 2
 	c |= getBool(r.IntermediateNotification) << 4
 	c |= r.Reserved & 0b111 << 5
+	if r.MCDeliveryReceipt > 0b11 || r.SMEOriginatedAcknowledgment > 0b11 || r.Reserved > 0b111 {
+		err = ErrDataTooLarge
+	}
 	return
 }
 
